@@ -49,7 +49,7 @@ func c10Scenario(c *core.Ctx) fScenario {
 		cfgs := []InstCfg{{"mappartial", []uint8{0, 2, 63}[c.Index%3]}, {"mappartial", uint8(c.Rng.Intn(64))}, {"mapfull", []uint8{0, 63, 5}[c.Index%3]}}
 		p := gen.Tiny
 		p.RememberMode = 1
-		s := genForestScenario(c.Rng, tag, cfgs, fGenOpts{Profile: p, Rounds: 2 + c.Rng.Intn(2), Undo: c.Index%2 == 0, PartialOps: true, Reload: c.Index%4 == 3})
+		s := genForestScenario(c.Rng, tag, cfgs, fGenOpts{Profile: p, Rounds: 2 + c.Rng.Intn(2), Undo: c.Index%2 == 0, PartialOps: true, Reload: c.Index%4 == 3, JunkProofs: c.Index%4 == 1})
 		if c.Index%8 == 5 {
 			s.LeafMode = "readd"
 		}
